@@ -5,7 +5,7 @@
 //	a group is one token or several tokens joined by `|` (run concurrently from separate
 //	goroutines released by one barrier):  L<i> latch i Lock, U<i> latch i Unlock,
 //	C checkProtocols, A compute (register one more worker), W (alone) every running worker does
-//	one iteration.
+//	one iteration, O (alone) two overlapping checkProtocols calls around a Lock of latch 0.
 //
 // Obs line: one entry per group, taken at quiescence after the group:
 //
@@ -42,6 +42,38 @@ type rig struct {
 	entered int
 	tick    chan struct{}
 	panics  int
+	slow    bool // a quiescence wait already timed out in this case: do not wait long again
+	gateAt  int  // index of the protocol whose next IsExecuting call is gated (-1: none)
+	gate    *pollGate
+}
+
+// pollGate stops one checkProtocols call inside its poll of a protocol (the Protocol interface is
+// the harness's own wrapper around the real latch), so that the harness can place other calls
+// while that check is in flight.
+type pollGate struct {
+	reached chan struct{}
+	release chan struct{}
+}
+
+type gatedProtocol struct {
+	r     *rig
+	idx   int
+	latch *generator.ProtocolLatch
+}
+
+func (p *gatedProtocol) IsExecuting() bool {
+	p.r.mu.Lock()
+	var g *pollGate
+	if p.r.gate != nil && p.r.gateAt == p.idx {
+		g = p.r.gate
+		p.r.gate = nil // one-shot
+	}
+	p.r.mu.Unlock()
+	if g != nil {
+		g.reached <- struct{}{}
+		<-g.release
+	}
+	return p.latch.IsExecuting()
 }
 
 func (r *rig) worker(ctx context.Context) {
@@ -69,7 +101,11 @@ const settleTimeout = 4 * time.Second
 // working ⇒ len(stops) invocations are inside workerFn; stopped ⇒ none. On timeout the actual
 // numbers are reported (and will not match the model).
 func (r *rig) settle() (working bool, stops, active int) {
-	deadline := time.Now().Add(settleTimeout)
+	to := settleTimeout
+	if r.slow {
+		to = 150 * time.Millisecond
+	}
+	deadline := time.Now().Add(to)
 	for {
 		working, _, stops = r.sched.VerifC45State()
 		r.mu.Lock()
@@ -84,6 +120,7 @@ func (r *rig) settle() (working bool, stops, active int) {
 			return
 		}
 		if time.Now().After(deadline) {
+			r.slow = true
 			return
 		}
 		time.Sleep(50 * time.Microsecond)
@@ -136,8 +173,9 @@ func exec(op string) (string, string) {
 	for i := 0; i < np; i++ {
 		l := generator.NewProtocolLatch()
 		r.latches = append(r.latches, l)
-		r.sched.RegisterProtocol(l)
+		r.sched.RegisterProtocol(&gatedProtocol{r: r, idx: i, latch: l})
 	}
+	r.gateAt = -1
 	defer func() {
 		// end of case: stop every worker goroutine
 		l := generator.NewProtocolLatch()
@@ -184,17 +222,79 @@ func exec(op string) (string, string) {
 			}
 			continue
 		}
+		if g == "O" {
+			// overlapping checks: check A is held inside its poll of the last protocol, latch 0 is
+			// locked, check B is started; A is released when B has finished (it overtook A) or has
+			// not finished within a grace period (it waits for A, as protocolsMutex demands)
+			if np == 0 {
+				return "bad-op", "bad"
+			}
+			gate := &pollGate{reached: make(chan struct{}, 1), release: make(chan struct{})}
+			r.mu.Lock()
+			r.gate, r.gateAt = gate, np-1
+			r.mu.Unlock()
+			aDone := make(chan struct{})
+			go func() { r.do("C"); close(aDone) }()
+			gated := false
+			select {
+			case <-gate.reached:
+				gated = true
+			case <-aDone:
+			}
+			r.do("L0")
+			bDone := make(chan struct{})
+			go func() { r.do("C"); close(bDone) }()
+			if gated {
+				select {
+				case <-bDone:
+					tags["overtook"] = true
+				case <-time.After(120 * time.Millisecond):
+				}
+				close(gate.release)
+				<-aDone
+			}
+			<-bDone
+			r.mu.Lock()
+			r.gate, r.gateAt = nil, -1
+			r.mu.Unlock()
+			tags["overlap"] = true
+			toks = nil
+		}
 		for _, t := range toks {
 			if !validTok(t, np) {
 				return "bad-op", "bad"
 			}
 		}
-		if len(toks) == 1 {
+		if g == "O" {
+		} else if len(toks) == 1 {
 			r.do(toks[0])
 		} else {
 			tags["par"] = true
 			start := make(chan struct{})
 			var wg sync.WaitGroup
+			// contention on the scheduler's work mutex: goroutines that keep reading the state
+			// (hook, takes workMutex) for the duration of the group. A queue of waiters makes the
+			// order of the critical sections of compute / stop / resume vary from run to run, so
+			// a compute whose check and start are separate critical sections gets a stop in between.
+			stopPoll := make(chan struct{})
+			var pollers sync.WaitGroup
+			if strings.Contains(g, "A") && strings.Contains(g, "C") {
+				tags["stress"] = true
+				for k := 0; k < 6; k++ {
+					pollers.Add(1)
+					go func() {
+						defer pollers.Done()
+						for {
+							select {
+							case <-stopPoll:
+								return
+							default:
+								r.sched.VerifC45State()
+							}
+						}
+					}()
+				}
+			}
 			for _, t := range toks {
 				wg.Add(1)
 				go func(t string) {
@@ -205,6 +305,8 @@ func exec(op string) (string, string) {
 			}
 			close(start)
 			wg.Wait()
+			close(stopPoll)
+			pollers.Wait()
 		}
 		working, stops, active := r.settle()
 		flags := "-"
@@ -245,7 +347,7 @@ func exec(op string) (string, string) {
 		}
 	}
 	var ts []string
-	for _, t := range []string{"stop", "resume", "mixed", "par", "iter", "paused", "compute", "unlockpanic"} {
+	for _, t := range []string{"stop", "resume", "mixed", "par", "overlap", "overtook", "stress", "iter", "paused", "compute", "unlockpanic"} {
 		if tags[t] {
 			ts = append(ts, t)
 		}
@@ -259,6 +361,15 @@ func exec(op string) (string, string) {
 func gen(r *hx.Rng, n int, tier string) []string {
 	var ops []string
 	for i := 0; i < n; i++ {
+		if i%25 == 24 {
+			// stress: a worker registration racing the check that stops the scheduler
+			reps := make([]string, 15)
+			for k := range reps {
+				reps[k] = "L0,A|A|C,U0,C"
+			}
+			ops = append(ops, "sched 1 0 "+strings.Join(reps, ","))
+			continue
+		}
 		np := r.Range(1, 3)
 		if r.Chance(1, 15) {
 			np = 0
@@ -303,7 +414,14 @@ func gen(r *hx.Rng, n int, tier string) []string {
 					}
 				}
 			}
-			if r.Chance(1, 4) {
+			if np > 0 && r.Chance(1, 10) {
+				// overlapping checks around a Lock of latch 0, then a quiescent check
+				groups = append(groups, "O")
+				held[0]++
+				if r.Bool() {
+					groups = append(groups, "C")
+				}
+			} else if r.Chance(1, 4) {
 				k := r.Range(2, 4)
 				var toks []string
 				var after []func()
